@@ -46,7 +46,7 @@ StrHey == LitS(<<104, 233, 121>>)
 HashBA == <<"hash", <<<<LitS(<<98>>), LitI(2)>>, <<LitS(<<97>>), LitI(1)>>>>>>
 ReA    == <<"lit", R(<<94, 97>>, "")>>        \* /^a/
 
-NKinds == 41
+NKinds == 43
 
 \* The construct of kind k in slot j (base call number n = 100 * j) around body block B.
 MkC(k, j, BODY, c, d) ==
@@ -102,9 +102,12 @@ MkC(k, j, BODY, c, d) ==
     \* ... which itself returns from inside a loop of its own
     [] k = 41 -> <<<<"func", f, <<"p">>, <<ForEach("", "q", ArrLit(<<5, 6>>), <<If(BinE("==", Ref("q"), LitI(6)), <<Ret(BinE("+", Ref("q"), Ref("p")))>>)>>), Ret(LitI(0))>>>>,
                    ForEach("", x, ArrLit(<<1, 2>>), <<TE(CallE(f, <<Ref(x)>>))>> \o BODY \o <<T(n + 2)>>), T(n + 3)>>
+    \* a switch without any case: only a default block (its value is still evaluated), and a switch on a condition field
+    [] k = 42 -> <<Switch(BinE("+", LitI(1), LitI(1)), <<Default(<<T(n + 4)>> \o BODY)>>), T(n + 3)>>
+    [] k = 43 -> <<Switch(c, <<Default(<<T(n + 4)>>), Case(<<LitB(TRUE)>>, <<T(n + 1)>> \o BODY)>>), T(n + 3)>>
 
 Mk(k, j, BODY) == MkC(k, j, BODY, Ref(CName[j]), Ref(DName[j]))
 
-UsesC(k) == k \in {1, 2, 3, 24, 25, 27, 32, 33, 36, 37}
+UsesC(k) == k \in {1, 2, 3, 24, 25, 27, 32, 33, 36, 37, 43}
 UsesD(k) == k = 3
 =============================================================================
